@@ -12,7 +12,9 @@
 (*     opcode_base are skipped by `standard_opcode_lengths`.               *)
 (*  2. The register machine AS CODED (`Exec`, `ResetRegs`, `Step`):        *)
 (*     gimli's `LineRow::execute` + `LineRows::next_row`, including the    *)
-(*     tombstone mode, the `max_ops = 1` fast path, u64-wrapping           *)
+(*     tombstone mode (incl. the end_sequence row that is still returned   *)
+(*     when the sequence had returned rows), the `max_ops = 1` fast path,  *)
+(*     u64-wrapping                                                        *)
 (*     intermediate arithmetic, saturation of `line` at 0, checked         *)
 (*     address addition, partial reset after a row vs. full reset after    *)
 (*     end_sequence, and the one-pass `sequences()` slicing.               *)
@@ -283,7 +285,7 @@ Exec(H, r, ins) ==
 (* seqs: [start, end, from, to] (from..to = byte range of the sequence's   *)
 (* instructions); sfrom / sstart: the pending sequence.                    *)
 InitRun(H) == [pos |-> 1, k |-> 1, r |-> InitRegs(H), rows |-> <<>>, files |-> <<>>, end |-> "run",
-               seqs |-> <<>>, sfrom |-> 1, kfrom |-> 1, sstart |-> <<>>, merged |-> FALSE]
+               seqs |-> <<>>, sfrom |-> 1, kfrom |-> 1, sstart |-> <<>>, inseq |-> FALSE]
 
 FileOf(ins) == <<ins.raw, Trim(ins.x[1]), Trim(ins.x[2]), Trim(ins.x[3])>>
 
@@ -294,7 +296,10 @@ Apply(H, S, ins, n) ==
     LET e == Exec(H, S.r, ins) IN
     IF ~e.ok THEN [S EXCEPT !.end = "err"]
     ELSE LET np   == S.pos + n
-             vis  == e.emit /\ ~e.r.tomb              \* tombstone rows are swallowed
+             \* tombstone rows are swallowed, except the end_sequence row of a sequence
+             \* that has already returned a row (LineRows.in_sequence): it is returned
+             \* with the registers as they are (address = last valid address)
+             vis  == e.emit /\ (~e.r.tomb \/ (e.r.es /\ S.inseq))
              fin  == vis /\ e.r.es                    \* a sequence is completed
          IN [pos |-> np, k |-> S.k + 1,
              r |-> IF e.emit THEN ResetRegs(H, e.r) ELSE e.r,
@@ -308,9 +313,7 @@ Apply(H, S, ins, n) ==
              sfrom |-> IF fin THEN np ELSE S.sfrom,
              kfrom |-> IF fin THEN S.k + 1 ELSE S.kfrom,
              sstart |-> IF fin THEN <<>> ELSE IF vis /\ S.sstart = <<>> THEN <<Trim(e.r.addr)>> ELSE S.sstart,
-             \* an end_sequence row swallowed in tombstone mode after visible rows: the
-             \* reader sees the next sequence's rows appended to the unfinished one
-             merged |-> S.merged \/ (e.emit /\ e.r.tomb /\ e.r.es /\ S.sstart # <<>>)]
+             inseq |-> IF vis THEN ~e.r.es ELSE S.inseq]
 
 (* byte-level step: decode at S.pos and apply (used by trace validation)   *)
 Step(H, b, S) ==
@@ -345,10 +348,10 @@ Resume(H, L, seq) == Run(H, TLCEval([list |-> SubSeq(L.list, seq.kfrom, seq.kto)
 RowAddr(row) == ZExt(row[1], 8)
 RowEs(row) == (row[6] \div 4) % 2 = 1
 (* addresses never decrease within a sequence and fit the address size.    *)
-(* As coded this holds for every run that is not `merged` (see Apply): a   *)
-(* swallowed end_sequence lets the registers restart at 0 in the middle of *)
-(* what the reader sees as one sequence -- a defect of gimli w.r.t. C04's  *)
-(* any-input clause, reported by the check from the observation.           *)
+(* (Before gimli 47b1cb1 an end_sequence row was swallowed in tombstone     *)
+(* mode even after rows of the sequence had been returned, which broke     *)
+(* this for "merged" runs; finding monotone:tombstone-swallows-end_sequence, *)
+(* fixed.)                                                                 *)
 Monotone(rows) == \A k \in 1..Len(rows) - 1 :
                      RowEs(rows[k]) \/ ULe(RowAddr(rows[k]), RowAddr(rows[k + 1]))
 InRange(rows, asz) == \A k \in 1..Len(rows) : Len(rows[k][1]) <= asz
